@@ -70,6 +70,14 @@ pub fn subsets() -> Subsets {
     Subsets { parsers: all_extension_subsets().into_iter().map(|e| CooklangParser::new(e, Converter::bundled())).collect() }
 }
 
+/// what the property fixes across subsets: the recipe, validity and the absence of errors
+/// (warnings may legitimately depend on the enabled extensions, e.g. a hint about a line an extension would read)
+fn recipe_and_errors(r: &cooklang::RecipeResult) -> String {
+    let rec = r.output().map(|o| serde_json::to_string(o).unwrap_or_else(|_| format!("{o:?}")));
+    let errors: Vec<String> = r.report().iter().filter(|d| d.severity == cooklang::error::Severity::Error).map(|d| format!("{:?} {:?} labels={:?}", d.stage, d.message, d.labels)).collect();
+    format!("valid={} recipe={:?} errors={:?}", r.is_valid(), rec, errors)
+}
+
 /// Part A: identical result under all 192 subsets
 pub fn differential(s: &str, subs: &Subsets, local: &mut Local) -> Vec<Violation> {
     let base = subs.parsers[0].parse(s); // the empty set comes first
@@ -77,11 +85,11 @@ pub fn differential(s: &str, subs: &Subsets, local: &mut Local) -> Vec<Violation
     if base.report().has_errors() || !base.has_output() {
         return vec![];
     }
-    let want = exact_image(&base);
+    let want = recipe_and_errors(&base);
     for p in &subs.parsers[1..] {
         local.evaluations += 1;
         let r = p.parse(s);
-        let got = exact_image(&r);
+        let got = recipe_and_errors(&r);
         if got != want {
             return vec![Violation::new(
                 "core-syntax recipe parses differently under an extension subset",
@@ -332,7 +340,7 @@ pub fn replay(case: &J) -> Vec<Violation> {
 
 pub fn run(tier: Tier) {
     let c = ctx();
-    c.set_rule("Part A (differential): (i) every core-only canonical model recipe (L1 x 4 contexts, L2 pairs and triples, L3 block sequences) in every spelling with <= d deviations, (ii) every token-alphabet string up to n symbols that an independent syntactic classifier accepts as free of reinterpreted constructs and that parses without error with no extensions: the complete result (recipe JSON, validity, ordered diagnostics) must be identical under all 192 extension subsets (bundled units); (iii) plain text of numbers, blanks and unit-like words under the empty converter and under a layered converter whose override layer dropped keys, each string parsed once by a bundled parser first; Part B (catalogue): 18 sources using one extension's syntax, under every subset lacking that extension, must read as the core text the documentation describes; non-trivial = recipes / strings compared under all subsets; distinct = distinct sources");
+    c.set_rule("Part A (differential): (i) every core-only canonical model recipe (L1 x 4 contexts, L2 pairs and triples, L3 block sequences) in every spelling with <= d deviations, (ii) every token-alphabet string up to n symbols that an independent syntactic classifier accepts as free of reinterpreted constructs and that parses without error with no extensions: the result (recipe JSON, validity, error diagnostics; warnings are not compared) must be identical under all 192 extension subsets (bundled units); (iii) plain text of numbers, blanks and unit-like words under the empty converter and under a layered converter whose override layer dropped keys, each string parsed once by a bundled parser first; Part B (catalogue): 18 sources using one extension's syntax, under every subset lacking that extension, must read as the core text the documentation describes; non-trivial = recipes / strings compared under all subsets; distinct = distinct sources");
     let subs = Arc::new(subsets());
     let cfg = Config { extended: false };
     // (i) model recipes
